@@ -232,6 +232,13 @@ def oracle_case(fn, a, ri, slice_of):
     if fn == 'workers' and not (ri.isdigit() and int(ri) >= 1):
         out.append(('MESON_TESTTHREADS=%r MESON_NUM_PROCESSES=%r (U = unset) with %s CPUs give %s jobs by default; at least 1 is needed for `meson test` to start'
                     % (a[0], a[1], a[2], ri), {'got': ri}))
+    if fn == 'runner' and a[2] == 'F' and SEP1 in ri:
+        lim = O.documented_limit(None if a[3] == 'N' else int(a[3]), None if a[4] == 'N' else int(a[4]) / 1000.0) if a[3] != 'N' else None
+        want = 'N' if lim is None else str(int(round(lim * 1000)))
+        got = ri.split(SEP1)[1]
+        if got != want:
+            out.append(('a test with timeout %s under --timeout-multiplier %s gets the limit %s ms, documented: %s ms (N = no limit; a multiplier <= 0 disables the timeout)'
+                        % (a[3], 'absent' if a[4] == 'N' else int(a[4]) / 1000.0, got, want), {'expected': want, 'got': got}))
     if fn == 'select' and not ri.startswith('EXC'):
         tests = []
         for t in a[6:]:
